@@ -5,6 +5,7 @@ package main
 // conversion as the trailing positional field (C10), a struct-typed option that holds a pointer (C15).
 
 import (
+	"sort"
 	"bytes"
 	"fmt"
 	"reflect"
@@ -299,5 +300,172 @@ func checkC15StructOption(c *Ctx, n int) {
 		in := map[string]interface{}{"declaration": "Ep exEndpoint{Host, Port, Limit *int} `long:\"endpoint\"`, EpPtr *exEndpoint `long:\"fallback\"` preset by the program; help, man page, ini (IniIncludeDefaults|IniIncludeComments) rendered 5 times", "port": port}
 		c.Check("repeated-runs-render-identical-text-for-a-struct-typed-option", same, "C15:struct-option", in, fmt.Sprintf("panic=%v first difference: %s", pa, diffAt), "byte-identical text every time")
 		_ = reflect.TypeOf
+	}
+}
+
+// checkC08ActiveAssigned: Command.Active is a public field.  After a call the program resets (or sets) it by
+// hand — `p.Active = nil`, the customary reset — and calls again: the active chain is decided by the command
+// words of THAT call alone, whatever links the commands below still carry.
+func checkC08ActiveAssigned(c *Ctx, n int) {
+	r := c.Rng
+	type addT struct {
+		Name string `long:"name" required:"yes"`
+	}
+	type remoteT struct {
+		V   bool `short:"v"`
+		Add addT `command:"add"`
+		Rm  struct{} `command:"rm"`
+	}
+	type optsT struct {
+		D      bool    `short:"d"`
+		Remote remoteT `command:"remote" subcommands-optional:"yes"`
+		Other  struct{} `command:"other"`
+	}
+	for i := 0; i < n; i++ {
+		var o optsT
+		p := flags.NewParser(&o, flags.None)
+		first := [][]string{{"remote", "add", "--name", "origin"}, {"remote", "rm"}, {"remote", "add", "--name=x", "w"}}[r.Intn(3)]
+		how := r.Intn(3)
+		second := [][]string{{"remote"}, {"-d", "remote", "-v"}, {"other"}, {"remote", "rm"}}[r.Intn(4)]
+		var err1, err2 error
+		pan := safe(func() {
+			_, err1 = p.ParseArgs(first)
+			switch how {
+			case 0:
+				p.Active = nil
+			case 1:
+				p.Active = p.Find("other")
+			}
+			_, err2 = p.ParseArgs(second)
+		})
+		c.R.Evaluations++
+		var chain []string
+		for cmd := p.Active; cmd != nil; cmd = cmd.Active {
+			chain = append(chain, cmd.Name)
+		}
+		var want []string
+		for _, w := range second {
+			if !strings.HasPrefix(w, "-") {
+				want = append(want, w)
+			}
+		}
+		got := fmt.Sprintf("panic=%v first=%v second=%v chain=%v", pan, err1, err2, chain)
+		wantS := fmt.Sprintf("panic=<nil> first=<nil> second=<nil> chain=%v", want)
+		c.Distinct(fmt.Sprintf("c08active|%v|%d|%v", first, how, second))
+		c.Class(fmt.Sprintf("c08/active-assigned: how=%d", how))
+		in := map[string]interface{}{"first_call": first, "between_the_calls": []string{"p.Active = nil", "p.Active = p.Find(\"other\")", "nothing"}[how], "second_call": second}
+		c.Check("the-active-chain-is-decided-by-the-words-of-the-call-alone", got == wantS, "C08:active-assigned", in, got, wantS)
+	}
+}
+
+// exFmtOpts: a declaration built several times in one process
+type exFmtOpts struct {
+	Format string   `long:"format" choice:"yaml" choice:"json" choice:"text" default:"yaml"`
+	Tags   []string `long:"tag" default:"b" default:"a"`
+	Sub    struct {
+		Mode string `long:"mode" choice:"z" choice:"y" choice:"x"`
+	} `command:"sub" alias:"s2" alias:"s1"`
+}
+
+// checkTagSlicesPrivate: the lists a declaration gives — choices, defaults, aliases — belong to the option or
+// command built from it.  A program that sorts or edits them in place on ONE parser (public fields) changes
+// nothing for a parser built afterwards from the same declaration: its model is what the tags say, in their order.
+func checkTagSlicesPrivate(c *Ctx, n int, prop string) {
+	r := c.Rng
+	for i := 0; i < n; i++ {
+		var a exFmtOpts
+		pa := flags.NewParser(&a, flags.None)
+		how := r.Intn(4)
+		pan := safe(func() {
+			oa := pa.FindOptionByLongName("format")
+			ta := pa.FindOptionByLongName("tag")
+			switch how {
+			case 0:
+				sort.Strings(oa.Choices)
+				sort.Strings(ta.Default)
+			case 1:
+				oa.Choices[0], oa.Default[0] = "xml", "text"
+			case 2:
+				oa.Choices = append(oa.Choices, "html")
+				sort.Strings(pa.Find("sub").Aliases)
+			case 3:
+				mo := pa.Find("sub").FindOptionByLongName("mode")
+				sort.Strings(mo.Choices)
+			}
+		})
+		var b exFmtOpts
+		pb := flags.NewParser(&b, flags.None)
+		var errB error
+		pan2 := safe(func() { _, errB = pb.ParseArgs([]string{"sub"}) })
+		c.R.Evaluations++
+		ob := pb.FindOptionByLongName("format")
+		tb := pb.FindOptionByLongName("tag")
+		mb := pb.Find("sub").FindOptionByLongName("mode")
+		got := fmt.Sprintf("panic=%v/%v err=%v choices=%v default=%v tag-default=%v aliases=%v mode-choices=%v format=%q tags=%v",
+			pan, pan2, errB, ob.Choices, ob.Default, tb.Default, pb.Find("sub").Aliases, mb.Choices, b.Format, b.Tags)
+		want := "panic=<nil>/<nil> err=<nil> choices=[yaml json text] default=[yaml] tag-default=[b a] aliases=[s2 s1] mode-choices=[z y x] format=\"yaml\" tags=[b a]"
+		c.Distinct(fmt.Sprintf("tagslices|%d|%d", how, i%7))
+		c.Class(fmt.Sprintf("%s/tag-slices-private: how=%d", strings.ToLower(prop), how))
+		in := map[string]interface{}{"edit_on_the_first_parser": []string{"sort.Strings(opt.Choices); sort.Strings(tag.Default)", "opt.Choices[0] = \"xml\"; opt.Default[0] = \"text\"", "append(opt.Choices, \"html\"); sort.Strings(sub.Aliases)", "sort.Strings(sub's mode.Choices)"}[how]}
+		c.Check("a-parser-built-later-from-the-same-declaration-reflects-its-tags", got == want, prop+":tag-slices-shared", in, got, want)
+	}
+}
+
+// checkIniAddOption: an option added with Group.AddOption (no struct field behind it) is named in an INI file by
+// its long or its short name, as on the command line; an unconvertible value is reported with its line.
+func checkIniAddOption(c *Ctx, n int, prop string) {
+	r := c.Rng
+	for i := 0; i < n; i++ {
+		var o struct {
+			Verbose bool `short:"v" long:"verbose"`
+		}
+		var port int
+		p := flags.NewParser(&o, flags.None)
+		if r.Intn(2) == 0 {
+			p.Options |= flags.IgnoreUnknown
+		}
+		grp := p.Command.Group.Find("Application Options")
+		var errI, errF error
+		name := []string{"port", "p"}[r.Intn(2)]
+		bad := r.Intn(4) == 0
+		val := "8080"
+		if bad {
+			val = "eighty"
+		}
+		asDefaults := r.Intn(3) == 0
+		text := "[Application Options]\nverbose = true\n" + name + " = " + val + "\n"
+		pan := safe(func() {
+			grp.AddOption(&flags.Option{LongName: "port", ShortName: 'p', Description: "port"}, &port)
+			ip := flags.NewIniParser(p)
+			ip.ParseAsDefaults = asDefaults
+			errI = ip.Parse(strings.NewReader(text))
+			if asDefaults && errI == nil {
+				_, errI = p.ParseArgs(nil)
+			}
+		})
+		// the flag of the same meaning, on a parser built the same way
+		var o2 struct {
+			Verbose bool `short:"v" long:"verbose"`
+		}
+		var port2 int
+		p2 := flags.NewParser(&o2, flags.None)
+		safe(func() {
+			p2.Command.Group.Find("Application Options").AddOption(&flags.Option{LongName: "port", ShortName: 'p', Description: "port"}, &port2)
+			_, errF = p2.ParseArgs([]string{"--verbose", "--port=" + val})
+		})
+		c.R.Evaluations++
+		line := 0
+		if ie, ok := errI.(*flags.IniError); ok {
+			line = int(ie.LineNumber)
+		}
+		got := fmt.Sprintf("panic=%v ini: err=%v line=%d port=%d verbose=%v | flag: err=%v port=%d", pan, errI != nil, line, port, o.Verbose, errF != nil, port2)
+		want := "panic=<nil> ini: err=false line=0 port=8080 verbose=true | flag: err=false port=8080"
+		if bad {
+			want = "panic=<nil> ini: err=true line=3 port=0 verbose=true | flag: err=true port=0"
+		}
+		c.Distinct(fmt.Sprintf("iniaddoption|%s|%v|%v|%d", name, bad, asDefaults, int(p.Options)))
+		c.Class(fmt.Sprintf("%s/ini-addoption: by=%s bad-value=%v as-defaults=%v", strings.ToLower(prop), name, bad, asDefaults))
+		in := map[string]interface{}{"text": text, "option": "added with AddOption: LongName port, ShortName p", "ignore_unknown": p.Options&flags.IgnoreUnknown != 0}
+		c.Check("an-entry-naming-an-option-added-by-the-program-means-what-the-flag-means", got == want, prop+":ini-addoption", in, got, want)
 	}
 }
